@@ -646,6 +646,13 @@ class _Norm(ast.NodeTransformer):
         """N12: a, b = x, y  ->  a = x; b = y   when no target is read by a later element (plain names only)"""
         out = []
         for st in stmts:
+            # N37: a = b = e  (plain names)  ->  a = e; b = a
+            if isinstance(st, ast.Assign) and len(st.targets) >= 2 and all(isinstance(t, ast.Name) for t in st.targets):
+                first = st.targets[0]
+                out.append(ast.copy_location(ast.Assign(targets=[first], value=st.value), st))
+                for t in st.targets[1:]:
+                    out.append(ast.copy_location(ast.Assign(targets=[t], value=ast.Name(id=first.id, ctx=ast.Load())), st))
+                continue
             # N33: _, x = f(..)  ->  x = f(..)[1]   (one real name among `_` placeholders, right-hand side not a tuple display)
             if isinstance(st, ast.Assign) and len(st.targets) == 1 and isinstance(st.targets[0], ast.Tuple) and not isinstance(st.value, ast.Tuple) and \
                     all(isinstance(t, ast.Name) for t in st.targets[0].elts):
